@@ -332,6 +332,27 @@ def control_dependent(repo, fi, node):
   return False
 
 
+def cpp_history(chk, rid):
+  """The C++ parser's namespace-level switch has the same obligation."""
+  import shutil
+  from sa.cppmodel import CppModel, assign_paths
+  if not (shutil.which('clang++') or shutil.which('clang++-14')):
+    chk.info('clang++ not available: C++ twin of parse.TOO_MUCH not analysed')
+    return
+  cpp = CppModel(chk.repo.root)
+  if 'TOO_MUCH' not in cpp.vars:
+    chk.info('C++ parser has no TOO_MUCH variable')
+    return
+  for w in cpp.writers_of('TOO_MUCH'):
+    fn = cpp.func(w)
+    res = [assign_paths(d, 'TOO_MUCH') for d in fn.decls]
+    chk.ob(rid, all(r == 'all' for r in res), 'parser_cpp/logica_parse.cpp:%s' % w,
+           'write to logica_parse.cpp::TOO_MUCH is re-established on every entry',
+           '%s assigns the static TOO_MUCH only on some paths: the '
+           'experimental-syntax switch survives into later parses of the '
+           'same process' % w)
+
+
 def _constant_cache(fi, node, value):
   """Right-hand side has no data dependence on parameters: constants, names
   computed from bundled data in the same function."""
@@ -538,6 +559,7 @@ def run(chk):
            'on all paths; shared containers are never mutated in place',
            min_instances=3)
   history(chk, 'C13-R2')
+  cpp_history(chk, 'C13-R2')
   chk.rule('C13-R3', 'time / identity / randomness sources are confined to the '
            'stop-signal file name, timers and identity bookkeeping',
            min_instances=3)
